@@ -12,6 +12,7 @@ CONSTANTS
   Filts = {"none", "server"}
   Ops = {"pub", "rem", "exp", "sexp", "clear", "refresh", "poscheck"}
   MaxJumps = 2
+  EpochCheck = TRUE
   Pres = {3}
   N0s = {2}
   Contig = TRUE
